@@ -212,7 +212,8 @@ impl Item {
                         let next = Item::contains(items.get(i).unwrap(), pattern, depth);
                         match next {
                             Ok(pattern_idx) => return Ok(pattern_idx),
-                            Err(()) => (),
+                            // skip the remaining points of this child
+                            Err(()) => depth += Item::size(items.get(i).unwrap()) - 1,
                         }
                     }
                 }
